@@ -122,6 +122,8 @@ def build_one(spec, cfg):
            "-o", out]
     if spec.get("race"):
         cmd.append("-race")
+    if spec.get("fuzz"):
+        cmd.append("-fuzz=^%s$" % spec["fuzz"])
     cmd.append(spec["pkg"])
     t0 = time.time()
     p = subprocess.run(cmd, cwd=REPO, env=goenv(), stdout=subprocess.PIPE, stderr=subprocess.STDOUT, text=True)
@@ -156,12 +158,15 @@ def rapid_seed(pid, shard, seed):
     return 1 + v
 
 
-def run_one(pid, spec, cfg, shard, nshards, tier, seed, outdir, extra_args=None, extra_env=None, timeout=None):
+def run_one(pid, spec, cfg, shard, nshards, tier, seed, outdir, extra_args=None, extra_env=None, timeout=None, files=None):
     b = bin_path(spec, cfg)
     tag = "%s-%s-%d" % (spec["name"], cfg["name"], shard)
     cwd = os.path.join(WORK, pid, tag)
     shutil.rmtree(cwd, ignore_errors=True)
     os.makedirs(cwd)
+    for rel, src in (files or {}).items():
+        os.makedirs(os.path.dirname(os.path.join(cwd, rel)), exist_ok=True)
+        shutil.copyfile(src, os.path.join(cwd, rel))
     env = goenv({
         "VERIF_TIER": tier, "VERIF_SEED": str(seed), "VERIF_SHARD": str(shard), "VERIF_NSHARDS": str(nshards),
         "VERIF_OUT": outdir, "VERIF_REPO": REPO, "VERIF_HARNESS": HARNESS, "VERIF_CONFIG": cfg["name"],
@@ -174,6 +179,9 @@ def run_one(pid, spec, cfg, shard, nshards, tier, seed, outdir, extra_args=None,
         env.update(extra_env)
     args = [b, "-test.run=" + spec.get("run", "."), "-test.timeout=0", "-test.v=true",
             "-rapid.seed=%d" % rapid_seed(pid, shard, seed)]
+    if spec.get("fuzz") and not (extra_args and any(a.startswith("-test.run=") for a in extra_args)):
+        args = [b, "-test.run=^$", "-test.fuzz=^%s$" % spec["fuzz"], "-test.fuzztime=%s" % spec.get("fuzztime", "60s"),
+                "-test.fuzzcachedir=" + os.path.join(cwd, "fuzzcache"), "-test.timeout=0", "-test.parallel=%d" % NCPU]
     if spec.get("steps"):
         args.append("-rapid.steps=%d" % spec["steps"])
     args += extra_args or []
@@ -202,7 +210,7 @@ def tail(path, n=60):
 
 def save_replay(pid, seed, idx, src, meta):
     os.makedirs(REPLAYS, exist_ok=True)
-    ext = ".fail" if src.endswith(".fail") else (".json" if src.endswith(".json") else ".txt")
+    ext = ".fail" if src.endswith(".fail") else (".json" if src.endswith(".json") else (".txt" if src.endswith(".txt") else ".fuzz"))
     dst = os.path.join(REPLAYS, "%s-seed%d-%d%s" % (pid, seed, idx, ext))
     shutil.copyfile(src, dst)
     with open(dst + ".meta.json", "w") as f:
@@ -288,7 +296,11 @@ def run_property(pid, tier, seed):
     known = load_known(pid)
     race_known_hit = {}
     for r in results:
-        text = open(r["log"], errors="replace").read()
+        try:
+            text = open(r["log"], errors="replace").read()
+        except OSError:
+            inconclusive.append("log vanished (concurrent run of the same property?): " + r["log"])
+            continue
         if "WARNING: DATA RACE" in text:
             rk = race_keys(pid, text)
             new = sorted(set(k for k in rk if k not in known))
@@ -308,6 +320,7 @@ def run_property(pid, tier, seed):
             inconclusive.append("%s timed out after %.0fs" % (r["log"], r["wall"]))
             continue
         fails = sorted(glob.glob(os.path.join(r["cwd"], "testdata/rapid/**/*.fail"), recursive=True))
+        crashers = sorted(f for f in glob.glob(os.path.join(r["cwd"], "testdata/fuzz/*/*")) if os.path.isfile(f))
         directs = re.findall(r"VERIF-VIOLATION key=(\S+) replayfile=(\S*)", text)
         keys = re.findall(r"VERIF-VIOLATION key=(\S+)", text)
         meta_base = dict(property=pid, bin=r["spec"]["name"], config=r["cfg"]["name"], shard=r["shard"], tier=tier, seed=seed, env=r["env"], args=r["args"][1:])
@@ -320,6 +333,10 @@ def run_property(pid, tier, seed):
                 if safe_name(re.sub(r"\\(.)", r"\1", q)) == tname:
                     runre = "/".join("^" + el + "$" for el in q.split("/"))
             m = dict(meta_base, kind="rapid", test_dir=tname, run=runre, keys=sorted(set(keys)))
+            violations.append(save_replay(pid, seed, len(violations), f, m))
+            got = True
+        for f in crashers:
+            m = dict(meta_base, kind="fuzz", fuzz=os.path.basename(os.path.dirname(f)), corpus_name=os.path.basename(f), keys=sorted(set(keys)))
             violations.append(save_replay(pid, seed, len(violations), f, m))
             got = True
         for key, rf in directs:
@@ -336,6 +353,14 @@ def run_property(pid, tier, seed):
             else:
                 inconclusive.append("worker died rc=%s: %s" % (r["rc"], r["log"]))
     ev = merge_evidence(pid, tier, seed, outdir, P, unavailable, time.time() - t0, len(violations), results)
+    fuzz_execs = 0
+    for r in results:
+        if r["spec"].get("fuzz"):
+            m = re.findall(r"execs: (\d+)", open(r["log"], errors="replace").read())
+            if m:
+                fuzz_execs += int(m[-1])
+    if fuzz_execs:
+        ev["coverage"]["native_fuzz_execs"] = fuzz_execs
     for k, n in race_known_hit.items():
         ev["coverage"]["known_findings_hit"][k] = ev["coverage"]["known_findings_hit"].get(k, 0) + n
         ev["coverage"]["known_findings_hit_what"][k] = known[k]
@@ -469,7 +494,11 @@ def replay(pid, path):
                 b0 = build_all([dict(spec, configs=[c0])], lg)
             if all(ok for ok, _t in b0.values()):
                 run_one(pid, dict(spec), c0, meta["shard"], int(meta["env"].get("VERIF_NSHARDS", "1")), meta["tier"], meta["seed"], outdir, None, None, 3600)
-    r = run_one(pid, spec2, cfg, meta["shard"], int(meta["env"].get("VERIF_NSHARDS", "1")), meta["tier"], meta["seed"], outdir, extra, None, 3600)
+    files = None
+    if meta["kind"] == "fuzz":
+        files = {"testdata/fuzz/%s/%s" % (meta["fuzz"], meta["corpus_name"]): path}
+        extra = ["-test.run=^%s$/^%s$" % (meta["fuzz"], meta["corpus_name"])]
+    r = run_one(pid, spec2, cfg, meta["shard"], int(meta["env"].get("VERIF_NSHARDS", "1")), meta["tier"], meta["seed"], outdir, extra, None, 3600, files)
     sys.stdout.write(tail(r["log"], 60) + "\n")
     if r["rc"] != 0:
         print("VIOLATION property=%s replay=%s" % (pid, path))
